@@ -6,7 +6,7 @@ from checks import pagegen as G
 from checks.zdirlab import Lab, diff_index_vs_files
 
 PROPERTY = "C05"
-CONTRACTS = ["contracts.c05", "contracts.c06"]
+CONTRACTS = ["contracts.c05", "contracts.c06", "contracts.c07"]
 LEVEL = "other"
 EXPLANATION = (
     "Contract-based: _pop_line_before_zid and _add_zid_to_line are verified against a specification of the rewritten first "
@@ -17,6 +17,7 @@ EXPLANATION = (
     "listing as stubs): a fresh index afterwards holds exactly the pages on disk with their current contents, the stored hash map "
     "describes it, no page is written by the command itself, and it refuses exactly when a page has syntax errors and the "
     "whitelist is not being updated (<= 2 pages). "
+    "The ZIDs written are well-formed successors (_get_next_id) that dates.is_zid recognises (contracts shared with C07). "
     "The agreement of index and files after `db create` at the level of notes, which notes are ZID-less, and the "
     "idempotence of repeated create/reindex runs are checked end to end on generated directories through the real command "
     "handlers, SQLite and the compiler (bounded)."
